@@ -150,6 +150,36 @@ def check_local(ctx, zone, zid, W, L, cal, tag):
                     V("at_leniently-gap-local", f"lenient result renders as {gen.ldt_ns(r.local_date_time)}; expected L + gap = {L + (B[2] - A[2]) * NS}")
     except Exception as ex:  # noqa: BLE001
         ctx.exc(ex); V(f"at_leniently-raised:{exc_key(ex)}", f"at_leniently raised {ex!r}", repr(ex))
+    # the six combinations of stock ambiguity/skipped resolvers do what they promise (full mode)
+    if tag == "full" and (len(exp) != 1 or ctx.rng.random() < 0.2) and ctx.rng.random() < 0.5:
+        A_, B_ = (gap_neighbours(sub, L) if not exp else (None, None))
+        amb = [("return_earlier", Resolvers.return_earlier, lambda: exp[0][0]), ("return_later", Resolvers.return_later, lambda: exp[-1][0]),
+               ("throw_when_ambiguous", Resolvers.throw_when_ambiguous, AmbiguousTimeError)]
+        skp = [("return_end_of_interval_before", Resolvers.return_end_of_interval_before, lambda: A_[1] - 1),
+               ("return_start_of_interval_after", Resolvers.return_start_of_interval_after, lambda: B_[0]),
+               ("return_forward_shifted", Resolvers.return_forward_shifted, lambda: L - A_[2] * NS), ("throw_when_skipped", Resolvers.throw_when_skipped, SkippedTimeError)]
+        for an, af, aexp in amb:
+            for sn, sf, sexp in skp:
+                if len(exp) == 1 and (an, sn) != ("return_earlier", "throw_when_skipped"):
+                    continue
+                if not exp and (A_ is None or B_ is None or A_[1] != B_[0]):
+                    continue
+                ctx.counters["resolvers"] += 1
+                want = (lambda v_=exp[0][0]: v_) if len(exp) == 1 else (aexp if len(exp) == 2 else sexp)
+                try:
+                    rr = zone.resolve_local(ldt, Resolvers.create_mapping_resolver(af, sf))
+                    got = gen.inst_ns(rr.to_instant())
+                    if isinstance(want, type):
+                        V(f"resolver-returned:{an}+{sn}", f"resolver ({an}, {sn}) returned {got}; it promises to raise {want.__name__} here ({len(exp)} matching instants)")
+                    elif got != want():
+                        V(f"resolver:{an if len(exp) == 2 else sn}", f"resolver ({an}, {sn}) returned instant {got}; its documented result is {want()}", got, want())
+                    elif rr.zone is not zone or rr.calendar is not cal:
+                        V("resolver-zone-calendar", f"resolver ({an}, {sn}) result lost the zone or the calendar")
+                except (AmbiguousTimeError, SkippedTimeError) as ex:
+                    if not (isinstance(want, type) and isinstance(ex, want)):
+                        V(f"resolver-raised:{an}+{sn}", f"resolver ({an}, {sn}) raised {type(ex).__name__} with {len(exp)} matching instants")
+                except Exception as ex:  # noqa: BLE001
+                    ctx.exc(ex); V(f"resolver-unexpected:{exc_key(ex)}", f"resolver ({an}, {sn}) raised {ex!r}", repr(ex))
     # round trip instant -> local -> map_local
     for inst_ns, rec in exp:
         ctx.counters["roundtrips"] += 1
